@@ -2,4 +2,6 @@ package main
 
 func init() {
 	regConsts("dvid", "Uncompressed", "Snappy", "Gzip", "LZ4", "JPEG", "NoChecksum", "CRC32")
+	regFunc("EncodeSerializationFormat", "dvid", "EncodeSerializationFormat")
+	regFunc("DecodeSerializationFormat", "dvid", "DecodeSerializationFormat")
 }
